@@ -61,6 +61,7 @@ pub fn generate_sel(seed: u64, tier: &str, sink: &mut Sink, only_refusal_bodies:
         let obs = run_send(&case);
         let head_complete = reply_kind == "valid";
         let o: Result<(), (String, String)> = (|| {
+            obs.resend_check("tunnel")?;
             if obs.hops.len() != 1 {
                 return Err(("connections".into(), format!("{} connections; final {:?}", obs.hops.len(), obs.fin)));
             }
